@@ -214,7 +214,7 @@ def r3_order_uniqueness(chk: Check):
             if x.func.attr == "setdefault":
                 ok = True
             else:
-                ok = any(" not in " in src(t.ast) and pol is True for t, pol in g.guards(m) if t.kind == "test")
+                ok = any(" in " in src(t.ast) and isinstance(t.ast, ast.Compare) and pol is False for t, pol in g.guards(m) if t.kind == "test")
         chk.require(ok, chk.fkey(f, "pre-tasks de-duplicated"), "a pre-task attached to several configurations must be executed once (membership test before insertion)", loc)
     # init tasks come from the last record
     for k, m in order:
